@@ -489,6 +489,15 @@ def check_key_notation(ctx):
     if reader_per_key is None:
         ctx.undecided(R5, r.key + ":key-notation", "cannot find the loop converting the stored keys", r)
         return
+    # a one-entry outcome: the joined text of a 1-tuple contains no separator, and a reader whose separator-free branch reads the
+    # text character by character turns the entry 12 into the two entries 1, 2. The writer has to mark one-entry keys (a
+    # trailing separator, Python's own notation for a 1-tuple) or the reader must not split separator-free text
+    per_char = [c for c in body_walk(r.node) if isinstance(c, ast.Call) and dotted(c.func) in ("map", "tuple", "list") and c.args and isinstance(c.args[-1], ast.IfExp) and any("split" in norm(x) for x in (c.args[-1].body, c.args[-1].orelse))]
+    marks_single = any(isinstance(t, ast.Compare) and "len(" in norm(t) and norm(t.comparators[0]) == "1" for t in ast.walk(w.node)) or any(isinstance(b, ast.BinOp) and isinstance(b.op, ast.Add) and isinstance(b.right, ast.Constant) and b.right.value == "," for b in ast.walk(w.node))
+    for hf in [w.module.functions[c.func.id] for c in calls_helper]:
+        marks_single = marks_single or any(isinstance(t, ast.Compare) and "len(" in norm(t) and norm(t.comparators[0]) == "1" for t in ast.walk(hf.node))
+    if per_char:
+        ctx.check(marks_single, R5, f"{MOD}:key-notation-single-entry", "one-entry outcomes are written with a separator, so the reader's character-by-character branch never sees a multi-digit entry", "a one-entry outcome is written without a separator (`\",\".join` of one item) and the reader reads separator-free text character by character: the saved key of (12,) is \"12\" and loads back as (1, 2), so saving then loading a distribution on one subsystem with outcomes of 10 or more does not return the same keys", r)
     ctx.check(not (writer_per_key and not reader_per_key), R5, f"{MOD}:key-notation-granularity", "writer and reader agree on how one key's notation is chosen", "the writer chooses the notation of each saved key from that key (separator depends on the outcome) but the reader decides the notation once for the whole dictionary: a saved distribution mixing single-digit and multi-digit outcomes cannot be loaded back", r)
 
 
